@@ -32,6 +32,7 @@ import (
 	corev1 "k8s.io/api/core/v1"
 	"k8s.io/apimachinery/pkg/api/resource"
 	metav1 "k8s.io/apimachinery/pkg/apis/meta/v1"
+	"k8s.io/apimachinery/pkg/types"
 	utilfeature "k8s.io/apiserver/pkg/util/feature"
 	"k8s.io/klog/v2"
 	"pgregory.net/rapid"
@@ -228,7 +229,7 @@ func (s c01PodSpec) String() string {
 var c01DeletionTime = metav1.NewTime(time.Unix(1000000000, 0)) // 2001: far from any wall-clock boundary
 
 func (s c01PodSpec) build() *corev1.Pod {
-	p := &corev1.Pod{ObjectMeta: metav1.ObjectMeta{Namespace: "ns", Name: s.Name, UID: "uid-" + s.Name,
+	p := &corev1.Pod{ObjectMeta: metav1.ObjectMeta{Namespace: "ns", Name: s.Name, UID: types.UID("uid-" + s.Name),
 		Labels: map[string]string{}, ResourceVersion: fmt.Sprint(s.RV)}}
 	if s.Label != "" {
 		p.Labels[extension.LabelQuotaName] = s.Label
@@ -758,7 +759,7 @@ func (w *c01World) plugMigrateCycle() (moved int, stale bool) {
 			continue
 		}
 		if mp := w.pods[pod.Name]; mp != nil && mp.Obj != pod {
-			if mp.Spec.Label != pod.Labels[extension.LabelQuotaName] || fmt.Sprint(PodRequestsForDump(mp.Obj)) != fmt.Sprint(PodRequestsForDump(pod)) {
+			if mp.Spec.Label != pod.Labels[extension.LabelQuotaName] || fmt.Sprint(c01PodRequestsDump(mp.Obj)) != fmt.Sprint(c01PodRequestsDump(pod)) {
 				stale = true
 			}
 		}
@@ -768,8 +769,8 @@ func (w *c01World) plugMigrateCycle() (moved int, stale bool) {
 	return
 }
 
-// PodRequestsForDump renders container requests for a staleness comparison (not an oracle).
-func PodRequestsForDump(p *corev1.Pod) string {
+// c01PodRequestsDump renders container requests for a staleness comparison (not an oracle).
+func c01PodRequestsDump(p *corev1.Pod) string {
 	var b strings.Builder
 	for _, c := range p.Spec.Containers {
 		for _, n := range c01SortedResourceNames(c.Resources.Requests) {
